@@ -905,6 +905,9 @@ def c16_plan(pid, tier, seed, t0):
                     violation("C16/process-died/%s" % cause, {"cmd": " ".join(cmd[1:]), "stderr": stderr[-800:]})
                     continue
                 obs["runs/%s" % kind] = obs.get("runs/%s" % kind, 0) + 1
+                if out.get("watchdog"):
+                    merged["inconclusive"].append("%s: threads still running after 300 s (not blocked: CPU was being used)" % " ".join(cmd[1:]))
+                    continue
                 if out["mode"] == "stress":
                     merged["evaluations"] += out["searches"]
                     sigs.add(kind + ":" + out["interleaving"])
